@@ -83,8 +83,9 @@ Fixpoint k2_steps (sh : shape) (l : list step) : bool :=
   | _ :: rest => k2_steps sh rest
   end.
 
-(* class 4: the handler calls SendHeader after the client's context has ended, headers not sent
-   before: the wrapper latches them and the client's Header() shows them, a real connection delivers
+(* former class 4 (repaired in stream.go, SendHeader now looks at the context first; kept to state the
+   _v0 witness): the handler calls SendHeader after the client's context has ended, headers not sent
+   before: the wrapper latched them and the client's Header() showed them, a real connection delivers
    nothing any more *)
 Fixpoint k4_post (sent : bool) (l : list step) : bool :=
   match l with
@@ -104,7 +105,6 @@ Definition known_class (sc : scenario) : option Z :=
   if precancel sc then None
   else if k1_steps false (steps sc) then Some 1
   else if k2_steps (shp sc) (steps sc) then Some 2
-  else if k4_steps false (steps sc) then Some 4
   else None.
 
 Definition no_known (sc : scenario) : bool := match known_class sc with None => true | Some _ => false end.
@@ -167,7 +167,11 @@ Inductive c13case :=
     (* client misuse [k] on a fresh bidi stream: what the offending call did on the wrapper and on gRPC *)
 | KMisuse (k : misuse) (rw rg : mres)
     (* wrap.UnwrapFully on a chain of wrappers with ids [ids] around a plain object [leaf]: id of the result *)
-| KUnwrap (ids : list Z) (leaf got : Z).
+| KUnwrap (ids : list Z) (leaf got : Z)
+    (* a named assumption of GrpcSpec (Wrap/GrpcFacts.v, entry [id] of the generated table): directed scenario
+       [sc] run against a real grpc.Server on bufconn, the hand-written transcript a real connection must
+       give, and the transcript observed *)
+| KFact (id : Z) (sc : scenario) (expect tg : transcript).
 
 Definition mres_eqb (a b : mres) : bool :=
   match a, b with
@@ -185,8 +189,9 @@ Definition agrees (c : c13case) : bool :=
       (cw =? code_of (if via then newstream_lookup m false false else invoke_lookup m))
       && (cg =? grpc_unknown_method_code)
   | KShape m a b cw => cw =? code_of (newstream_lookup m a b)
-  | KMisuse k rw rg => mres_eqb rw (w_misuse k) && mres_eqb rg (g_misuse k)
+  | KMisuse k rw rg => mres_eqb rw (w_misuse fx_now k) && mres_eqb rg (g_misuse k)
   | KUnwrap ids leaf got => got =? obj_id (unwrap_fully (mk_chain ids leaf))
+  | KFact _ sc _ tg => transcript_eqb tg (grpc_run sc)
   end.
 
 Definition shape_of_method (m : Z) : option (bool * bool) :=
@@ -204,6 +209,7 @@ Definition C13_ok (c : c13case) : bool :=
       end
   | KMisuse k rw rg => mres_eqb rw rg
   | KUnwrap ids leaf got => got =? leaf     (* the innermost object, whatever the wrappers *)
+  | KFact _ _ expect tg => transcript_eqb tg expect   (* observed = what the fact says; no model involved *)
   end.
 
 Definition C13_guard (c : c13case) : bool :=
@@ -213,12 +219,15 @@ Definition C13_guard (c : c13case) : bool :=
   | KShape _ _ _ _ => true
   | KMisuse _ _ _ => true
   | KUnwrap _ _ _ => true
+    (* the entry is one GrpcSpec agrees with (proved for the whole generated table on every run:
+       GrpcFactsProofs.fact_table_matches_spec) *)
+  | KFact _ sc expect _ => transcript_eqb (grpc_run sc) expect
   end.
 
-(* class 3: the client calls SendMsg after CloseSend, or CloseSend a second time: the wrapper panics
-   (channel already closed), a real connection returns an Internal error / nil *)
+(* (former class 3, repaired: the client calls SendMsg after CloseSend, or CloseSend a second time: the
+   wrapper panicked on the closed channel, a real connection returns an Internal error / nil) *)
 Definition C13_known (c : c13case) : option Z :=
-  match c with KCall sc _ _ => known_class sc | KMisuse _ _ _ => Some 3 | _ => None end.
+  match c with KCall sc _ _ => known_class sc | _ => None end.
 
 Definition judge (c : c13case) : Z :=
   verdict (agrees c) (if C13_guard c then C13_ok c else true) (C13_known c).
